@@ -9,6 +9,10 @@ def extra(tier, seed, rng, res, broken):
     first hit of another callsite): real threads under every schedule with few preemptions (yield hooks), the scenarios and the
     judge being C04's — at quiescence every live collector receives exactly what its own filter accepts"""
     from checks import C04 as _c04
+    # the process-wide count of live scopes is one of the shortcuts in front of the collector (it reads 0 => the thread's scoped
+    # default is not even looked at): the search behind C02.fast_path_sound — real threads opening and closing scopes together
+    from checks import stressgen
+    stressgen.stress_phase('scopes', tier, res, broken, seed)
     N = 'n' * 30
     cases = []
     for cs in (0, 13):
@@ -103,10 +107,10 @@ PROPERTY = {
     },
     'lean_module': 'TracingModel.Props.C01S',
     'leanchecker_modules': ['TracingModel.Props.C01', 'TracingModel.Props.C01R'],
-    'extra_bins': ['h_race'],
+    'extra_bins': ['h_race', 'h_stress'],
     'namespace': 'C01',
-    'units': ['MacroGuards', 'RegistryLocks', 'StaticMaxLevel'],
-    'required_theorems': ['C01.static_level_table', 'C01.static_level_of_feature', 'C01.static_level_strictest', 'C01.delivery_iff', 'C01.inv_reachable', 'C01.never_suppresses', 'C01.never_causes', 'C01.macro_guard_shape',
+    'units': ['MacroGuards', 'RegistryLocks', 'StaticMaxLevel', 'AtomicCounts'],
+    'required_theorems': ['C01.scope_count_is_atomic', 'C01.scope_count_zero_means_no_scope', 'C01.static_level_table', 'C01.static_level_of_feature', 'C01.static_level_strictest', 'C01.delivery_iff', 'C01.inv_reachable', 'C01.never_suppresses', 'C01.never_causes', 'C01.macro_guard_shape',
                           'C01.registration_lock_discipline', 'C01.racing_first_hit_sound'],
     'streams': [Stream('hist', 'h_core', gen=gen, per_process=True, nontrivial=nontrivial, spec_mode='spec',
                        canon=lambda s: s)],
